@@ -30,16 +30,16 @@ def rule_queue(ctx, R):
     for n in ctrl:
         ctrl_region |= shared.arm_region(b, tests, n)
     # auth refuse region is not part of the transaction question
-    refuse = set()
-    t1 = rules_auth.password_tests(b); t2 = rules_auth.state_tests(ctx, b)
-    for (c, csw, c_auth, c_not) in t2:
-        refuse |= cfg.fwd(b, [c_not]) - cfg.fwd(b, [c_auth])
+    try:
+        refuse = rules_auth.gate_regions(ctx, b)[2]
+    except Exception:
+        refuse = set()
     cache = {}
     n = 0
     names_by_block = {}
-    for t in tests:
-        for x in cfg.dom_set(b, t["true"]):
-            names_by_block.setdefault(x, set()).add(t["name"])
+    for nm_ in sorted({t["name"] for t in tests}):
+        for x in shared.arm_region(b, tests, nm_):
+            names_by_block.setdefault(x, set()).add(nm_)
     for i, t in b.calls():
         if i == qi or not rules_auth.is_priv_site(ctx, t, cache):
             continue
@@ -60,7 +60,8 @@ def rule_queue(ctx, R):
         if i in queued and cal != "network::server::ShardedConnections::with_connection":
             R.finding(PF, "effect:%s:on-queued-edge" % short, "%s is executed on the edge where the command was queued" % short, b.loc(i))
         elif not dom:
-            R.finding(PF, "effect:%s:before-queue-test" % short,
+            # keyed by the commands of the arm (stable when the arm's body is moved into a helper)
+            R.finding(PF, ("immediate-in-multi:%s" % "+".join(cmds[:4])) if cmds else ("effect:%s:before-queue-test" % short),
                       "%s (line %d, commands %s) runs before the in_transaction/should_queue_command test: inside MULTI it takes effect immediately instead of being queued" % (short, b.bb_line(i), cmds[:3]), b.loc(i))
     R.floor("effect_sites_in_process_frame", n)
     # the queued edge must only queue: it reaches queue_command and no other privileged call
@@ -611,9 +612,10 @@ def rule_norefuse(ctx, R):
     ctrl_region = set()
     for n in ctrl:
         ctrl_region |= shared.arm_region(b, tests, n)
-    refuse = set()
-    for (c, csw, c_auth, c_not) in rules_auth.state_tests(ctx, b):
-        refuse |= cfg.fwd(b, [c_not]) - cfg.fwd(b, [c_auth])
+    try:
+        refuse = rules_auth.gate_regions(ctx, b)[2]
+    except Exception:
+        refuse = set()
     # the read of the connection state: with_connection whose closure reads in_transaction
     reads = []
     for i, t in b.calls():
